@@ -77,6 +77,18 @@ def main(tier, rep):
         for cfgp, steps in L.gen_fault_programs(["pooled", "hashpooled"], L.ALL_OPS, tier, seed=common.seed() + (mp or 0),
                                                 cfg_extra={"max_pool": mp, "idle": IDLE}, quick_stride=3):
             traces.append(L.run_program(cfgp, steps))
+    # calls that fail without any connection fault (a rejected key, a dict-style read of an absent key): the healthy
+    # connection is kept, and still nothing stays checked out
+    for kind in ("pooled", "hashpooled"):
+        for mp in (1, None):
+            for idle in (0, IDLE):
+                for special in ("get_illegal", "getitem_miss"):
+                    if not L.has_op(kind, special):
+                        continue
+                    cfg = L.Cfg(kind=kind, max_pool=mp, idle=idle)
+                    steps = [("call", "set", False, None, "all"), ("tick", 1), ("call", special, None, None, "all"), ("tick", 1),
+                             ("call", "get", None, None, "all"), ("call", special, None, None, "bytes"), ("call", "add", False, None, "all")]
+                    traces.append(L.run_program(cfg, steps))
     L.validate(rep, traces, relevant, PROP)
     # spec -> code: the pooled + idle-clock variant of the as-coded model spec/Conn.tla
     from drivers import connmodel
